@@ -13,7 +13,7 @@ import json, os, shutil, subprocess, sys, time
 
 pid, which = sys.argv[1], sys.argv[2]
 suite = "--no-suite" not in sys.argv
-src = ("/tmp/seed2_%s/seed_out/%s" if which in ("C", "D") else "/tmp/seed_%s/seed_out/%s") % (pid, which)
+src = {"A": "/tmp/seed_%s", "B": "/tmp/seed_%s", "C": "/tmp/seed2_%s", "D": "/tmp/seed2_%s", "E": "/tmp/seed3_%s", "F": "/tmp/seed3_%s"}[which] % pid + "/seed_out/" + which
 sid = "%s-%s" % (pid, which)
 wt = "/tmp/vseed_%s" % sid
 dst = "/verif/seeded/%s" % sid
